@@ -422,7 +422,7 @@ def finish(prop, tier, seed, runner, level, rule, trusted, floors=None, extra_co
         kept.append(r)
     res = kept
     n_und_obl = sum(len([u for u in (r.get('undecided') or []) if u.get('kind') != 'more']) for r in res if r['status'] == 'undecided')
-    n_obl = sum(r.get('obligations', 0) for r in res) + extra_obl[0] - sum((r.get('obligations', 0) - r.get('discharged', 0)) for r in res if r['status'] == 'undecided')
+    n_obl = sum(r.get('obligations', 0) for r in res) + extra_obl[0] - sum((r.get('obligations', 0) - r.get('discharged', 0)) for r in res if r['status'] in ('undecided', 'unsupported'))
     n_ok = sum(r.get('discharged', 0) for r in res) + extra_obl[1]
     by_status = {}
     for r in res:
@@ -475,15 +475,20 @@ def finish(prop, tier, seed, runner, level, rule, trusted, floors=None, extra_co
                 shown += 1
         print('VIOLATION property=%s replay=%s' % (prop, rp))
     reasons = list(runner.broken)
+    fl = (floors or {})
+    decided = sum(1 for r in res if r['status'] in ('ok', 'violation', 'uncompilable'))
+    allowed_undecided = fl.get('max_undecided', max(5, len(res) // 200))
     if unsupported:
+        # a witness instance the interpreter cannot follow (a construct it does not model, its memory or time cap) is not judged; like
+        # the undecided ones it is counted against the allowance, and beyond the allowance the analysis is declared broken
         us = {}
         for r in unsupported:
             for u in r.get('unsupported', []):
                 us[u] = us.get(u, 0) + 1
-        reasons.append('unsupported constructs: ' + '; '.join('%s (%d)' % kv for kv in sorted(us.items(), key=lambda kv: -kv[1])[:8]))
-    fl = (floors or {})
-    decided = sum(1 for r in res if r['status'] in ('ok', 'violation', 'uncompilable'))
-    allowed_undecided = fl.get('max_undecided', max(5, len(res) // 200))
+        msg = 'unsupported constructs: ' + '; '.join('%s (%d)' % kv for kv in sorted(us.items(), key=lambda kv: -kv[1])[:8])
+        print('UNSUPPORTED property=%s: %d witness instances (of %d) are outside what the interpreter models and are not judged (allowed together with the undecided ones: %d): %s' % (prop, len(unsupported), len(res), allowed_undecided, msg[:600]))
+        if len(unsupported) + len(undecided) > allowed_undecided:
+            reasons.append(msg)
     if undecided:
         print('UNDECIDED property=%s: %d witness instances (of %d) could neither be proved nor refuted and are not judged (allowed %d)' % (prop, len(undecided), len(res), allowed_undecided))
     if len(undecided) > allowed_undecided:
